@@ -126,8 +126,13 @@ def decodeOvw (bs : Bytes) : Res (Ovw × Bytes) :=
     let spp ← rd u64be
     if n1 ≠ n2 then throwC .invalid_argument else
     let rem ← remaining
-    if Prim.s64 n1 < 0 ∨ (rem / 3 : Int) < Prim.s64 n1 ∨ (rem : Int) < 3 * (Prim.s64 n1 + 1)
-      then throwC .invalid_argument else
+    -- `num_entries_1 < 0 || num_entries_1 > (end - ptr) / 3 || end - ptr < 3 * (num_entries_1 + 1)`:
+    -- `||` short-circuits, so the `int64_t` sum and product are only computed when the first two tests
+    -- are false; both are checked (`ub signed_overflow` when out of range).
+    if Prim.s64 n1 < 0 ∨ (rem / 3 : Int) < Prim.s64 n1 then throwC .invalid_argument else
+    let n1p ← lift (Chk.add64 (Prim.s64 n1) 1)
+    let need ← lift (Chk.mul64 3 n1p)
+    if (rem : Int) < need then throwC .invalid_argument else
     let pts ← takeN (3 * n1.toNat)
     let mx ← takeN 3
     let extra ← rest
